@@ -1,6 +1,7 @@
 """C17 — Quoted amounts equal executed amounts; slippage limits are honoured."""
 from .. import sym, guards, arms, model
 from ..sym import tag, payload, kids
+from ..norm import N
 from .common import *
 
 EXPLANATION = ("R17.1 the InputAmount/OutputAmount query arms and the SwapInput/SwapOutput execute arms call the same pricing function "
@@ -179,29 +180,45 @@ def run(ctx):
         # zero-amount swaps: nothing is exchanged, so a non-zero limit that demands to RECEIVE something cannot be met
         zbad = None
         zn = 0
+
+        def zero_ok(fs):
+            """facts (handler's own or of a limit helper it relies on, in entry terms) that make a zero amount acceptable:
+            the limit is zero (also spelled `!(0 < limit)`), or the trader is on the owing side"""
+            for (at, o) in fs:
+                a2 = ix.inline(at)
+                if tag(a2) != "op":
+                    continue
+                nm = payload(a2)[0]
+                ks = kids(a2)
+                if nm == "is_zero" and ks[0] == lim and o is True:
+                    return True
+                if nm in ("lt", "gt", "le", "ge") and len(ks) == 2 and o in (True, False):
+                    zero_l = tag(ks[0]) == "int" and int(payload(ks[0])[0]) == 0
+                    zero_r = tag(ks[1]) == "int" and int(payload(ks[1])[0]) == 0
+                    # 0 < limit false / limit > 0 false / 0 >= limit true / limit <= 0 true  <=>  limit == 0
+                    if zero_l and ks[1] == lim and ((nm == "lt" and o is False) or (nm == "ge" and o is True)):
+                        return True
+                    if zero_r and ks[0] == lim and ((nm == "gt" and o is False) or (nm == "le" and o is True)):
+                        return True
+                if nm == "discr" and ks[0] == d and isinstance(o, tuple):
+                    if (o[0] == "variant" and o[1] == "RemoveFromAmm") or (o[0] == "other" and "AddToAmm" in o[1]):
+                        return True
+                if nm in ("eq", "ne") and len(ks) == 2 and o in (True, False):
+                    for u, v in ((ks[0], ks[1]), (ks[1], ks[0])):
+                        if u == d and tag(v) == "agg" and not kids(v):
+                            same = (nm == "eq") == o
+                            var = payload(v)[1]
+                            if (var == "RemoveFromAmm" and same) or (var == "AddToAmm" and not same):
+                                return True
+            return False
         for q in xa.ok_paths():
-            if any(e.target is not None and e.target.pretty in xt for e in q.events):
-                continue
+            if any(e.target is not None and e.target.pretty in xt and N(ix, xa.c(sym.unwrap(e.result))) != ("int", 0) for e in q.events):
+                # priced: unless the amount is known to be zero on this path
+                if not any(tag(xa.s(at)) == "op" and payload(xa.s(at))[0] == "is_zero" and kids(xa.s(at))[0] == xa.msgfield(xamt) and o is True for (at, o, _b, _l) in q.conds):
+                    continue
             zn += 1
-            limit_zero = None
-            direction = None
-            for (at, o, _b, _l) in q.conds:
-                a2 = xa.s(at)
-                if tag(a2) == "op":
-                    nm = payload(a2)[0]
-                    ks = kids(a2)
-                    if nm == "is_zero" and ks[0] == lim:
-                        limit_zero = o
-                    if nm == "discr" and ks[0] == d and o[0] == "variant":
-                        direction = o[1]
-                    if nm == "eq" and len(ks) == 2:
-                        for u, v in ((ks[0], ks[1]), (ks[1], ks[0])):
-                            if u == d and tag(v) == "agg":
-                                direction = payload(v)[1] if o is True else ("RemoveFromAmm" if payload(v)[1] == "AddToAmm" else "AddToAmm")
-            if limit_zero is True:
-                continue
-            if direction is None or direction == "AddToAmm":
-                zbad = zbad or "a swap of amount zero succeeds with a non-zero limit on the receiving side (direction %s): the trader receives 0 < limit" % direction
+            if not guards.path_satisfies(ix, q, zero_ok, xa.m):
+                zbad = zbad or "a swap of amount zero succeeds with a non-zero limit on the receiving side: the trader receives 0 < limit"
         ctx.inst("R17.3", "limit-on-zero-amount:%s" % xvar, zbad is None and zn > 0, xa.fn.where(),
                  zbad or "%d zero-amount success paths: limit zero, or the trader is on the owing side (0 <= limit)" % zn)
         # strictness: rejecting paths reject only on strict violation
